@@ -170,3 +170,164 @@ Qed.
 
 Lemma blength_encode t : blength (utf8_encode t) = blen t.
 Proof. induction t as [|c t IH]; cbn [utf8_encode blength blen]; [reflexivity|]. rewrite blength_app, blength_encode_cp, IH. reflexivity. Qed.
+
+(* ---- the other direction: the encoding of a text of scalar values decodes to it ---- *)
+Definition scalar (c : N) : bool := (c <? 55296) || ((57344 <=? c) && (c <=? 1114111)).
+
+Lemma decode_step c x fuel r acc :
+  scalar c = true ->
+  utf8_decode_go (x :: fuel) (encode_cp c ++ r) acc = utf8_decode_go fuel r (c :: acc).
+Proof.
+  intros Hs. unfold scalar in Hs. unfold encode_cp.
+  destruct (N.ltb_spec c 128) as [H1|H1].
+  { cbn [app utf8_decode_go]. destruct (N.ltb_spec c 128); [reflexivity|lia]. }
+  destruct (N.ltb_spec c 2048) as [H2|H2].
+  { cbn [app utf8_decode_go]. set (b0 := 192 + c / 64). set (b1 := 128 + c mod 64).
+    assert (Hb0 : 194 <= b0 /\ b0 <= 223) by (unfold b0; lia).
+    assert (Hb1 : 128 <= b1 /\ b1 <= 191) by (unfold b1; lia).
+    destruct (N.ltb_spec b0 128); [lia|].
+    unfold in_rng, is_cont.
+    replace (194 <=? b0) with true by (symmetry; apply N.leb_le; lia).
+    replace (b0 <=? 223) with true by (symmetry; apply N.leb_le; lia).
+    replace (128 <=? b1) with true by (symmetry; apply N.leb_le; lia).
+    replace (b1 <=? 191) with true by (symmetry; apply N.leb_le; lia).
+    cbn [andb]. f_equal. f_equal. unfold b0, b1. lia. }
+  destruct (N.ltb_spec c 65536) as [H3|H3].
+  { cbn [app utf8_decode_go]. set (b0 := 224 + c / 4096). set (b1 := 128 + (c / 64) mod 64). set (b2 := 128 + c mod 64).
+    assert (Hs' : c < 55296 \/ 57344 <= c).
+    { destruct (N.ltb_spec c 55296); [left; assumption|]. cbn [orb] in Hs. apply andb_true_iff in Hs.
+      right. apply N.leb_le. tauto. }
+    assert (Hb0 : 224 <= b0 /\ b0 <= 239) by (unfold b0; lia).
+    assert (Hb1 : 128 <= b1 /\ b1 <= 191) by (unfold b1; lia).
+    assert (Hb2 : 128 <= b2 /\ b2 <= 191) by (unfold b2; lia).
+    destruct (N.ltb_spec b0 128); [lia|].
+    unfold in_rng, is_cont.
+    replace (194 <=? b0) with true by (symmetry; apply N.leb_le; lia).
+    replace (b0 <=? 223) with false by (symmetry; apply N.leb_gt; lia).
+    replace (224 <=? b0) with true by (symmetry; apply N.leb_le; lia).
+    replace (b0 <=? 239) with true by (symmetry; apply N.leb_le; lia).
+    cbn [andb].
+    replace (128 <=? b2) with true by (symmetry; apply N.leb_le; lia).
+    replace (b2 <=? 191) with true by (symmetry; apply N.leb_le; lia).
+    assert (Hok : (if b0 =? 224 then (160 <=? b1) && (b1 <=? 191)
+                   else if b0 =? 237 then (128 <=? b1) && (b1 <=? 159) else (128 <=? b1) && (b1 <=? 191)) = true).
+    { destruct (N.eqb_spec b0 224) as [E|E].
+      - apply andb_true_iff. split; apply N.leb_le; unfold b0, b1 in *; lia.
+      - destruct (N.eqb_spec b0 237) as [E'|E'].
+        + apply andb_true_iff. split; apply N.leb_le; unfold b0, b1 in *; lia.
+        + apply andb_true_iff. split; apply N.leb_le; lia. }
+    rewrite Hok. cbn [andb]. f_equal. f_equal. unfold b0, b1, b2. lia. }
+  cbn [app utf8_decode_go].
+  set (b0 := 240 + c / 262144). set (b1 := 128 + (c / 4096) mod 64). set (b2 := 128 + (c / 64) mod 64). set (b3 := 128 + c mod 64).
+  assert (Hc : c <= 1114111).
+  { destruct (N.ltb_spec c 55296); [lia|]. cbn [orb] in Hs. apply andb_true_iff in Hs. apply N.leb_le. tauto. }
+  assert (Hb0 : 240 <= b0 /\ b0 <= 244) by (unfold b0; lia).
+  assert (Hb1 : 128 <= b1 /\ b1 <= 191) by (unfold b1; lia).
+  assert (Hb2 : 128 <= b2 /\ b2 <= 191) by (unfold b2; lia).
+  assert (Hb3 : 128 <= b3 /\ b3 <= 191) by (unfold b3; lia).
+  destruct (N.ltb_spec b0 128); [lia|].
+  unfold in_rng, is_cont.
+  replace (194 <=? b0) with true by (symmetry; apply N.leb_le; lia).
+  replace (b0 <=? 223) with false by (symmetry; apply N.leb_gt; lia).
+  replace (224 <=? b0) with true by (symmetry; apply N.leb_le; lia).
+  replace (b0 <=? 239) with false by (symmetry; apply N.leb_gt; lia).
+  replace (240 <=? b0) with true by (symmetry; apply N.leb_le; lia).
+  replace (b0 <=? 244) with true by (symmetry; apply N.leb_le; lia).
+  cbn [andb].
+  replace (128 <=? b2) with true by (symmetry; apply N.leb_le; lia).
+  replace (b2 <=? 191) with true by (symmetry; apply N.leb_le; lia).
+  replace (128 <=? b3) with true by (symmetry; apply N.leb_le; lia).
+  replace (b3 <=? 191) with true by (symmetry; apply N.leb_le; lia).
+  assert (Hok : (if b0 =? 240 then (144 <=? b1) && (b1 <=? 191)
+                 else if b0 =? 244 then (128 <=? b1) && (b1 <=? 143) else (128 <=? b1) && (b1 <=? 191)) = true).
+  { destruct (N.eqb_spec b0 240) as [E|E].
+    - apply andb_true_iff. split; apply N.leb_le; unfold b0, b1 in *; lia.
+    - destruct (N.eqb_spec b0 244) as [E'|E'].
+      + apply andb_true_iff. split; apply N.leb_le; unfold b0, b1 in *; lia.
+      + apply andb_true_iff. split; apply N.leb_le; lia. }
+  rewrite Hok. cbn [andb]. f_equal. f_equal. unfold b0, b1, b2, b3. lia.
+Qed.
+
+Lemma encode_cp_nonempty c : encode_cp c <> [].
+Proof. unfold encode_cp. destruct (c <? 128); [discriminate|]. destruct (c <? 2048); [discriminate|]. destruct (c <? 65536); discriminate. Qed.
+
+Lemma decode_go_encoded : forall t fuel acc,
+  forallb scalar t = true -> (length t <= length fuel)%nat ->
+  utf8_decode_go fuel (utf8_encode t) acc = Some (rev acc ++ t)%list.
+Proof.
+  induction t as [|c t IH]; intros fuel acc Hs Hl.
+  - cbn [utf8_encode]. destruct fuel; cbn [utf8_decode_go]; rewrite app_nil_r; reflexivity.
+  - cbn [forallb] in Hs. apply andb_true_iff in Hs. destruct Hs as [Hc Hs].
+    destruct fuel as [|x fuel]; [cbn [length] in Hl; lia|].
+    cbn [utf8_encode]. rewrite (decode_step c x fuel _ acc Hc).
+    rewrite IH; [|exact Hs|cbn [length] in Hl; lia]. cbn [rev]. rewrite <- app_assoc. reflexivity.
+Qed.
+
+Lemma encode_length_ge t : (length t <= length (utf8_encode t))%nat.
+Proof.
+  induction t as [|c t IH]; cbn [utf8_encode length]; [lia|]. rewrite app_length.
+  pose proof (encode_cp_nonempty c). destruct (encode_cp c); [congruence|]. cbn [length]. lia.
+Qed.
+
+Theorem encode_decode t : forallb scalar t = true -> utf8_decode (utf8_encode t) = Some t.
+Proof. intros H. unfold utf8_decode. rewrite decode_go_encoded; [reflexivity|exact H|apply encode_length_ge]. Qed.
+
+(* ... and what the strict decoder yields are scalar values *)
+Lemma forallb_rev_scalar acc : forallb scalar (rev acc) = forallb scalar acc.
+Proof.
+  induction acc as [|c acc IH]; [reflexivity|]. cbn [rev forallb]. rewrite forallb_app, IH. cbn [forallb].
+  rewrite andb_true_r. apply andb_comm.
+Qed.
+
+Lemma decode_go_scalars : forall fuel b acc t,
+  forallb scalar acc = true -> utf8_decode_go fuel b acc = Some t -> forallb scalar t = true.
+Proof.
+  induction fuel as [|x fuel IH]; intros b acc t Ha H.
+  - destruct b as [|b0 r0]; cbn in H; [|discriminate]. inversion H; subst. rewrite forallb_rev_scalar. exact Ha.
+  - destruct b as [|b0 r0]; [cbn in H; inversion H; subst; rewrite forallb_rev_scalar; exact Ha|].
+    cbn [utf8_decode_go] in H.
+    destruct (N.ltb_spec b0 128) as [Hlt|Hge].
+    { apply IH in H; [exact H|]. cbn [forallb]. rewrite Ha, andb_true_r. unfold scalar.
+      destruct (N.ltb_spec b0 55296); [reflexivity|lia]. }
+    destruct (in_rng 194 223 b0) eqn:E2.
+    { apply in_rng_spec in E2. destruct r0 as [|b1 r1]; [discriminate|].
+      destruct (is_cont b1) eqn:Ec; [|discriminate]. apply is_cont_spec in Ec.
+      apply IH in H; [exact H|]. cbn [forallb]. rewrite Ha, andb_true_r. unfold scalar.
+      destruct (N.ltb_spec ((b0 - 192) * 64 + (b1 - 128)) 55296); [reflexivity|lia]. }
+    destruct (in_rng 224 239 b0) eqn:E3.
+    { apply in_rng_spec in E3. destruct r0 as [|b1 [|b2 r2]]; try discriminate.
+      destruct ((if b0 =? 224 then in_rng 160 191 b1 else if b0 =? 237 then in_rng 128 159 b1 else is_cont b1)
+                && is_cont b2) eqn:Ec; [|discriminate].
+      apply andb_true_iff in Ec. destruct Ec as [E1 Ec2]. apply is_cont_spec in Ec2.
+      assert (Hb1 : 128 <= b1 /\ b1 <= 191 /\ (b0 = 237 -> b1 <= 159)).
+      { destruct (N.eqb_spec b0 224).
+        - apply in_rng_spec in E1. lia.
+        - destruct (N.eqb_spec b0 237); [apply in_rng_spec in E1|apply is_cont_spec in E1]; lia. }
+      apply IH in H; [exact H|]. cbn [forallb]. rewrite Ha, andb_true_r. unfold scalar.
+      set (c := (b0 - 224) * 4096 + (b1 - 128) * 64 + (b2 - 128)).
+      destruct (N.ltb_spec c 55296); [reflexivity|]. cbn [orb]. apply andb_true_iff. split; apply N.leb_le; unfold c in *; lia. }
+    destruct (in_rng 240 244 b0) eqn:E4; [|discriminate].
+    apply in_rng_spec in E4. destruct r0 as [|b1 [|b2 [|b3 r3]]]; try discriminate.
+    destruct ((if b0 =? 240 then in_rng 144 191 b1 else if b0 =? 244 then in_rng 128 143 b1 else is_cont b1)
+              && is_cont b2 && is_cont b3) eqn:Ec; [|discriminate].
+    apply andb_true_iff in Ec. destruct Ec as [Ec Ec3]. apply andb_true_iff in Ec. destruct Ec as [E1 Ec2].
+    apply is_cont_spec in Ec2, Ec3.
+    assert (Hb1 : 128 <= b1 /\ b1 <= 191 /\ (b0 = 240 -> 144 <= b1) /\ (b0 = 244 -> b1 <= 143)).
+    { destruct (N.eqb_spec b0 240).
+      - apply in_rng_spec in E1. lia.
+      - destruct (N.eqb_spec b0 244); [apply in_rng_spec in E1|apply is_cont_spec in E1]; lia. }
+    apply IH in H; [exact H|]. cbn [forallb]. rewrite Ha, andb_true_r. unfold scalar.
+    set (c := (b0 - 240) * 262144 + (b1 - 128) * 4096 + (b2 - 128) * 64 + (b3 - 128)).
+    destruct (N.ltb_spec c 55296); [reflexivity|]. cbn [orb]. apply andb_true_iff. split; apply N.leb_le; unfold c in *; lia.
+Qed.
+
+Theorem decode_scalars b t : utf8_decode b = Some t -> forallb scalar t = true.
+Proof. unfold utf8_decode. apply decode_go_scalars. reflexivity. Qed.
+
+(* the two directions together: the strict decoder is the inverse of the encoder on texts of scalar values *)
+Theorem decode_iff b t : utf8_decode b = Some t <-> (b = utf8_encode t /\ forallb scalar t = true).
+Proof.
+  split.
+  - intros H. split; [apply decode_is_encode; exact H|apply (decode_scalars b); exact H].
+  - intros [-> H]. apply encode_decode. exact H.
+Qed.
